@@ -21,6 +21,20 @@ CLAIMED = {
         technique="Coq proof (lia over bit-field arithmetic + per-constructor computation on regenerated tables) "
                   "+ differential correspondence",
     ),
+    "C14": dict(
+        text="Machine-checked theorems (Coq) over the regenerated, ordered instruction tables: for all 77 "
+             "constructors and ALL in-range operand tuples the first-match look-up returns the constructor's own "
+             "definition and format, and the word matches no other non-alias non-placeholder definition (pairwise "
+             "conflict decided by computation over the table and lifted by a soundness lemma); the field and "
+             "immediate extractors equal the specification's raw fields for EVERY 32-bit word; MASK/MATCH "
+             "constants fit 32 bits.  Helper text (GNU/Rocket/CVA6) is judged against words the encoders emit.",
+        design="4 C14",
+        note="Trusted: Coq kernel, no axioms; gen_tables.py; extraction; Disasm.v mirrors disassembler.py / "
+             "proc_helper.py (numeric part) and is tied by correspondence; helper text layout parsed by the "
+             "harness; placeholders custom0-3/unknown and alias keys excluded as 'other' definitions.",
+        technique="Coq proof (bit-mask lemmas + vm_compute sweep over the regenerated table lifted by "
+                  "forallb_forall) + differential correspondence",
+    ),
 }
 
 NOT_YET = "check under construction in this round (see DESIGN.md section 4); not yet claimed"
